@@ -55,7 +55,7 @@ def _lake(args, timeout=3000):
     return p.returncode, p.stdout + p.stderr
 
 
-def lean_prepare(prop_id, modules, thorough=False):
+def lean_prepare(prop_id, modules, thorough=False, prop_files=None):
     """Regenerate facts from /repo, build (incremental), audit the property's theorems."""
     from . import facts
     st = LeanStatus()
@@ -74,16 +74,18 @@ def lean_prepare(prop_id, modules, thorough=False):
             m.replace('/', '.')[:-5] for m in re.findall(r'^error: (\S+\.lean):', log, re.M)))
         st.driver_ok = DRIVER_BIN.exists() and not any(m.startswith('Driver') or m.startswith('OFModel') or m == 'ofdriver' for m in st.failed_modules)
         # theorems of the property file
-        pfile = LEAN / 'OFProps' / f'{prop_id}.lean'
+        prop_files = prop_files or [prop_id]
+        pfiles = [LEAN / 'OFProps' / f'{pf}.lean' for pf in prop_files]
         names = []
-        if pfile.exists():
-            src = pfile.read_text()
-            ns = None
-            for line in src.splitlines():
-                if m := re.match(r'namespace\s+(\S+)', line): ns = m.group(1)
-                if m := re.match(r'(?:private\s+)?theorem\s+([^\s:({\[]+)', line):
-                    names.append(f'{ns}.{m.group(1)}' if ns else m.group(1))
-        files = [pfile] + [LEAN / (m.replace('.', '/') + '.lean') for m in modules]
+        for pfile in pfiles:
+            if pfile.exists():
+                src = pfile.read_text()
+                ns = None
+                for line in src.splitlines():
+                    if m := re.match(r'namespace\s+(\S+)', line): ns = m.group(1)
+                    if m := re.match(r'(?:private\s+)?theorem\s+([^\s:({\[]+)', line):
+                        names.append(f'{ns}.{m.group(1)}' if ns else m.group(1))
+        files = pfiles + [LEAN / (m.replace('.', '/') + '.lean') for m in modules]
         for f in files:
             if f.exists():
                 txt = re.sub(r'/-.*?-/', '', f.read_text(), flags=re.S)
@@ -91,12 +93,12 @@ def lean_prepare(prop_id, modules, thorough=False):
                     line = line.split('--')[0]
                     if FORBIDDEN.search(line):
                         st.forbidden_hits.append(f'{f.name}: {line.strip()[:80]}')
-        ok_mod = f'OFProps.{prop_id}' not in st.failed_modules
+        ok_mod = not any(f'OFProps.{pf}' in st.failed_modules for pf in prop_files)
         if names and ok_mod:
             adir = LEAN / '.lake' / 'audit'
             adir.mkdir(parents=True, exist_ok=True)
             af = adir / f'{prop_id}.lean'
-            af.write_text(f'import OFProps.{prop_id}\n' + ''.join(f'#print axioms {n}\n' for n in names))
+            af.write_text(''.join(f'import OFProps.{pf}\n' for pf in prop_files) + ''.join(f'#print axioms {n}\n' for n in names))
             rc, out = _lake(['env', 'lean', str(af)])
             for n in names: st.theorems[n] = None
             for m in re.finditer(r"'([^']+)' depends on axioms: \[([^\]]*)\]", out.replace('\n', ' ')):
@@ -107,8 +109,8 @@ def lean_prepare(prop_id, modules, thorough=False):
                 if ax is None: st.audit_errors.append(f'{n}: not checked ({out.strip()[:200]})')
                 elif not set(ax) <= ALLOWED_AXIOMS: st.audit_errors.append(f'{n}: axioms {ax}')
             if thorough:
-                rc, out = _lake(['env', 'leanchecker', f'OFProps.{prop_id}'], timeout=3000)
-                if rc != 0: st.audit_errors.append(f'leanchecker OFProps.{prop_id}: {out[-300:]}')
+                rc, out = _lake(['env', 'leanchecker'] + [f'OFProps.{pf}' for pf in prop_files], timeout=3000)
+                if rc != 0: st.audit_errors.append(f'leanchecker {prop_files}: {out[-300:]}')
         else:
             for n in names: st.theorems[n] = None
             if not names: st.audit_errors.append(f'no theorems found for {prop_id}')
@@ -129,7 +131,8 @@ class Driver:
         if not reqs: return []
         data = ''.join(json.dumps(r, separators=(',', ':')) + '\n' for r in reqs)
         p = subprocess.run([str(DRIVER_BIN)], input=data, capture_output=True, text=True, timeout=1800)
-        lines = p.stdout.splitlines()
+        lines = p.stdout.split('\n')
+        if lines and lines[-1] == '': lines.pop()
         if len(lines) != len(reqs):
             raise RuntimeError(f'driver returned {len(lines)} lines for {len(reqs)} requests: rc={p.returncode} {p.stderr[-300:]}')
         self.calls += len(reqs)
@@ -200,7 +203,7 @@ def run_property(mod, tier, seed, replay=None):
     t0 = time.time()
     pid = mod.ID
     thorough = tier == 'thorough'
-    st = lean_prepare(pid, mod.MODULES, thorough)
+    st = lean_prepare(pid, mod.MODULES, thorough, getattr(mod, 'PROP_FILES', None))
     proof_ok = st.proof_ok(mod.MODULES)
     drv = Driver() if st.driver_ok else None
     rng = random.Random(seed)
@@ -261,11 +264,11 @@ def run_property(mod, tier, seed, replay=None):
     wall = time.time() - t0
     if not replay:
         nobl = len(st.theorems)
-        ndis = sum(1 for v in st.theorems.values() if v is not None and set(v) <= ALLOWED_AXIOMS) if st.build_ok or f'OFProps.{pid}' not in st.failed_modules else 0
+        ndis = sum(1 for v in st.theorems.values() if v is not None and set(v) <= ALLOWED_AXIOMS)
         if st.forbidden_hits or st.facts_error: ndis = 0
         cov = {
             'obligations': max(nobl, 1), 'discharged': ndis,
-            'checker_cmd': f'cd lean && lake build && lake env lean .lake/audit/{pid}.lean' + (f' && lake env leanchecker OFProps.{pid}' if thorough else ''),
+            'checker_cmd': f'cd lean && lake build && lake env lean .lake/audit/{pid}.lean' + (' && lake env leanchecker ' + ' '.join('OFProps.' + pf for pf in getattr(mod, 'PROP_FILES', [pid])) if thorough else ''),
             'trusted_base': TRUSTED_BASE + list(getattr(mod, 'TRUSTED', [])),
             'theorems': {k: v for k, v in st.theorems.items()},
             'evaluations': res.evaluations, 'distinct_nontrivial': len(res.nontrivial), 'rule': res.rule or getattr(mod, 'RULE', ''),
